@@ -49,7 +49,7 @@ def witness_F09(scratch, k):
         old = sys.getrecursionlimit()
         for i in range(0, 1100, 50):
             im.exec("addpages [%s] 0" % ",".join(hx(b"s:http|h:com|h:a|p:%05d|" % j) for j in range(i, i + 50)))
-        a = im.exec("? paginate 1 [%s] 5 - 0" % hx(b"s:http|h:com|h:a|"))[0]
+        a = im.exec("? paginate 1 [%s] - - 0" % hx(b"s:http|h:com|h:a|"))[0]
         assert sys.getrecursionlimit() == old
         return a == "err other RecursionError"
     finally:
